@@ -939,6 +939,53 @@ func TestEnumUnions(t *testing.T) {
 	suite.Extra("union_matrix_exhaustive_over", fmt.Sprintf("%d x %d union members (indices -3..3, keys a b) x %d containers x %d continuations x 8 operations x {simple, gen, user collections}", len(members), len(members), len(datas), len(tails)))
 }
 
+// TestEnumOneForms is exhaustive over a small scope: the *One operations on paths that fan out
+// over several parents (wildcard, union, slice or descent first) each of which holds locations
+// the last fragment selects - "at most one location" is then a statement about the whole call,
+// not about one parent. Every kind of last fragment, arrays and maps as parents, simple, gen and
+// user-collection data.
+func TestEnumOneForms(t *testing.T) {
+	i := func(n int) *int { return &n }
+	k := func(s string) *string { return &s }
+	gt0 := &jpx.Eq{Op: "gt", L: &jpx.Eq{Op: "get", P: jpx.Path{{K: "at"}}}, R: &jpx.Eq{Op: "const", CK: "int", CI: 0}}
+	fans := []jpx.Path{
+		{{K: "root"}, {K: "wild"}},
+		{{K: "root"}, {K: "union", U: []jpx.UItem{{Idx: i(0)}, {Idx: i(2)}}}},
+		{{K: "root"}, {K: "slice", S: []int{1}}},
+		{{K: "root"}, {K: "descent"}, {K: "child", Key: "p"}},
+		{{K: "root"}, {K: "wild"}, {K: "child", Key: "p"}},
+	}
+	lasts := []jpx.Frag{
+		{K: "wild"}, {K: "nth", N: 0}, {K: "nth", N: -1}, {K: "child", Key: "a"},
+		{K: "union", U: []jpx.UItem{{Idx: i(0)}, {Idx: i(1)}}}, {K: "union", U: []jpx.UItem{{Key: k("a")}, {Key: k("b")}}},
+		{K: "slice", S: []int{0, 2}}, {K: "filter", F: gt0},
+	}
+	arr := func(n int64) any { return []any{n, n + 1, n + 2} }
+	obj := func(n int64) any { return map[string]any{"a": n, "b": n + 1} }
+	datas := []any{
+		[]any{arr(1), arr(4), arr(7)},
+		[]any{obj(1), obj(4), obj(7)},
+		[]any{map[string]any{"p": arr(1)}, map[string]any{"p": arr(4)}, map[string]any{"p": obj(7)}},
+	}
+	n := 0
+	for _, data := range datas {
+		enc := wx.Enc(data)
+		for _, fan := range fans {
+			for _, last := range lasts {
+				for _, op := range []string{"setone", "delone", "removeone", "modifyone", "set", "del", "remove", "modify"} {
+					for _, variant := range []int{0, 1, 2} {
+						p := append(append(jpx.Path{}, fan...), last)
+						vrt.Eval(suite, "mutate", Case{Op: op, Path: p, Data: enc, Val: wx.Enc("NEW"), Mod: "marker", Gen: variant == 1, User: variant == 2}, Run)
+						n++
+					}
+				}
+			}
+		}
+	}
+	suite.AddExtra("one_form_matrix_cases", int64(n))
+	suite.Extra("one_form_matrix_exhaustive_over", fmt.Sprintf("%d fan-outs x %d last fragments x %d trees x 8 operations x {simple, gen, user collections}", len(fans), len(lasts), len(datas)))
+}
+
 func TestPropRandom(t *testing.T) {
 	vrt.Rapid(t, suite, "mutate", vrt.Scale(30000, 200000), drawCase, Run)
 }
